@@ -10,6 +10,12 @@ CHECKS = {
          "trusts the rig's generator to stay inside the stated domain; compiler/toml is linked from /repo's working tree by the wrapper's go build", "DESIGN.md §3 C20"),
 }
 NOT_YET = {}
+CHECKS["C16"] = ("reference-model monitor: math/big oracle over the exported C API of bigint.c (value and _ptr forms) behind a clang ASan+UBSan driver, limb-boundary-weighted operand workload",
+ "Held on N calls: every exported ferret_{i,u}{128,256}_* operation (add, sub, mul, div, mod, comparisons, and/or/xor/not, shl/shr, pow, 64-bit conversions, decimal/hex/octal/binary text conversion) returned the math/big result reduced mod 2^N on every generated operand pair, in both calling forms, without a sanitizer report. Exploration over a 2^256 space: strength comes from boundary weighting (limb edges, sign boundaries, borrow/carry chains), not enumeration.",
+ "trusts math/big and the hex transport of the driver; division by zero, negative shifts/exponents are out of the property's domain", "DESIGN.md §3 C16")
+CHECKS["C17"] = ("reference-model monitor: Go map/slice model over operation histories run through the real map.c/array.c/optional.c behind an ASan+UBSan driver (thorough: also valgrind memcheck on an uninstrumented build)",
+ "Held on N histories: every return value of the runtime map/array/optional API matched the abstract model (latest value per key, size = distinct keys, iteration visits each entry exactly once, out-of-range array requests refused) across resize thresholds, for i32/i64/string/byte-blob keys, with exact-size heap buffers so over-reads/over-writes and leaks are visible to the sanitizers.",
+ "trusts the Go model and the driver's hex transport; a clean sanitizer run is not a memory-safety proof (red-zone tools miss intra-object overflows)", "DESIGN.md §3 C17")
 
 def main():
     props = [json.loads(l)["id"] for l in open(os.path.join(HERE, "properties.jsonl"))]
